@@ -113,7 +113,7 @@ EXT_METHODS: dict[str, tuple[str, ...]] = {
     "index": ("ValueError",), "remove": ("ValueError",), "to_bytes": ("OverflowError",), "set_result": ("InvalidStateError",), "set_exception": ("InvalidStateError",),
     "result": ("InvalidStateError", "CancelledError"), "put_nowait": ("QueueFull",), "get_nowait": ("QueueEmpty",), "popitem": ("KeyError",), "task_done": ("ValueError",),
 }
-NO_RAISE_BUILTINS = {"len", "isinstance", "issubclass", "bool", "repr", "str", "print", "range", "enumerate", "zip", "sorted", "list", "tuple", "dict", "set", "frozenset", "hasattr", "type", "id", "callable", "iter", "sum", "any", "all", "abs", "round", "hex", "bin", "oct", "min", "max", "super", "object", "format", "reversed", "map", "filter", "vars", "getattr", "setattr", "hash", "memoryview", "slice", "property", "staticmethod", "classmethod", "ord", "ascii", "pow", "copy", "deepcopy", "cast", "partial", "field", "replace", "asdict", "astuple", "fields", "is_dataclass"}
+NO_RAISE_BUILTINS = {"len", "isinstance", "issubclass", "bool", "repr", "str", "print", "range", "enumerate", "zip", "sorted", "list", "tuple", "dict", "set", "frozenset", "hasattr", "type", "id", "callable", "iter", "sum", "any", "all", "abs", "hex", "bin", "oct", "min", "max", "super", "object", "format", "reversed", "map", "filter", "vars", "getattr", "setattr", "hash", "memoryview", "slice", "property", "staticmethod", "classmethod", "ord", "ascii", "pow", "copy", "deepcopy", "cast", "partial", "field", "replace", "asdict", "astuple", "fields", "is_dataclass"}
 
 
 class MayRaise:
@@ -1126,6 +1126,36 @@ class _FuncAnalysis:
                     return (min(vals), max(vals))
         return None
 
+    def finite(self, e: ast.AST, local: tuple = (), depth: int = 6) -> bool:
+        """a number that cannot be nan / inf: not derived from a caller's float"""
+        if depth <= 0:
+            return False
+        if self.int_range(e, local) is not None:
+            return True
+        v = self.repo.fold(e, self.mod, self.ctx)
+        if isinstance(v, (int, float)) and not isinstance(v, bool):
+            return v == v and v not in (float("inf"), float("-inf"))
+        if isinstance(e, ast.BinOp):
+            if isinstance(e.op, (ast.Add, ast.Sub, ast.Mult)):
+                return self.finite(e.left, local, depth - 1) and self.finite(e.right, local, depth - 1)
+            if isinstance(e.op, (ast.Div, ast.FloorDiv)):
+                d = self.repo.fold(e.right, self.mod, self.ctx)
+                return isinstance(d, (int, float)) and not isinstance(d, bool) and d != 0 and d == d and self.finite(e.left, local, depth - 1)
+            return False
+        if isinstance(e, ast.UnaryOp) and isinstance(e.op, (ast.USub, ast.UAdd)):
+            return self.finite(e.operand, local, depth - 1)
+        if isinstance(e, ast.Call) and call_name(e).split(".")[-1] in ("time", "monotonic", "perf_counter") and not e.args:
+            return True  # clock readings
+        if isinstance(e, ast.Attribute) and isinstance(e.value, ast.Name) and e.value.id in ("self", "cls"):
+            k = kinds(self.typ(e))
+            return bool(k) and k <= {"int", "float", "bool"}  # the object's own numeric state (not the caller's value)
+        if isinstance(e, ast.Name) and e.id not in self.params:
+            defs = [n for n in walk_local(self.fi.node) if isinstance(n, ast.Assign) and len(n.targets) == 1 and isinstance(n.targets[0], ast.Name) and n.targets[0].id == e.id]
+            stores = [n for n in walk_local(self.fi.node) if isinstance(n, ast.Name) and n.id == e.id and isinstance(n.ctx, ast.Store)]
+            if len(defs) == 1 and len(stores) == 1:
+                return self.finite(defs[0].value, (), depth - 1)
+        return False
+
     def builtin_call(self, name: str, c: ast.Call, local: tuple) -> set[Esc]:
         if name == "str" and (len(c.args) >= 2 or any(k.arg in ("encoding", "errors") for k in c.keywords)):
             return self.decode_site(c, c.args[1:], local)  # str(bytes, encoding[, errors]) decodes
@@ -1166,6 +1196,22 @@ class _FuncAnalysis:
                 return self.site([("ValueError", f"int({at})")], c, None)
             # unknown / untyped operand (eg. a branch the declared type excludes): whatever __int__ / float conversion raises
             return self.site([("ValueError", f"int({at or '?'})"), ("OverflowError", f"int({at or '?'}): infinite float"), ("TypeError", f"int({at or '?'}): no integer conversion")], c, None)
+        if name == "round":
+            # round(x) with one argument converts to int: ValueError for nan, OverflowError for an infinity; with an
+            # ndigits argument (or an int operand) the result keeps the type and nothing is raised
+            if len(c.args) != 1 or c.keywords:
+                return set()
+            at = self.typ(c.args[0])
+            if kinds(at) and kinds(at) <= {"int", "bool"}:
+                return set()
+            ok = None
+            arg = ast.unparse(c.args[0])
+            for atom, val in self.facts(c, local):
+                if val and atom in (f"math.isfinite({arg})", f"isfinite({arg})"):
+                    ok = "dominated by math.isfinite"
+            if ok is None and self.finite(c.args[0], local):
+                ok = "finite by construction (bounded integers, constants, clock readings and the object's own state under + - * and division by a non-zero constant)"
+            return self.site([("ValueError", "round(nan)"), ("OverflowError", "round(inf)")], c, ok)
         if name == "float":
             at = self.typ(c.args[0]) if c.args else ""
             if kinds(at) and kinds(at) <= {"bool"}:
